@@ -17,6 +17,7 @@ theorem waker_frame (wl : Label) (hw : wl.isWaker = true) (t t' : St) (hs : step
   cases wl with
   | take c => simp [Label.isWaker] at hw
   | iterNext => simp [Label.isWaker] at hw
+  | dropNext => simp [Label.isWaker] at hw
   | wPush w =>
     simp only [step] at hs
     split at hs
@@ -43,6 +44,9 @@ theorem notify_pc_kept (wl : Label) (t t' : St) (hs : step wl t = some t') (w : 
     simp only [step] at hs
     (repeat' split at hs) <;> first | (simp only [Option.some.injEq] at hs; subst hs; exact hpc) | (simp at hs)
   | iterNext =>
+    simp only [step] at hs
+    (repeat' split at hs) <;> first | (simp only [Option.some.injEq] at hs; subst hs; exact hpc) | (simp at hs)
+  | dropNext =>
     simp only [step] at hs
     (repeat' split at hs) <;> first | (simp only [Option.some.injEq] at hs; subst hs; exact hpc) | (simp at hs)
   | wNotify w1 =>
